@@ -16,6 +16,7 @@ import collections
 import os
 import re
 import resource
+import shutil
 import signal
 import subprocess
 import time
@@ -30,6 +31,19 @@ RESOURCE_TRAPS = ("trap(STACK_OVERFLOW)", "trap(OOM)")
 
 # ---------------------------------------------------------------------------------------------------------------
 # running
+
+def sname(ctx, base):
+    """Scratch directory name; per seed and tier so that several runs of the check can share one build area."""
+    return "%s-%s%d" % (base, ctx.tier[0], ctx.seed)
+
+
+def cleanup(ctx, *dirs):
+    """Executables are ~8 MB each: drop a workload's scratch directory as soon as it is no longer needed."""
+    if ctx.opts.get("keep"):
+        return
+    for d in dirs:
+        shutil.rmtree(d, ignore_errors=True)
+
 
 def run_capped(cmd, timeout, env=None, cwd=None, outdir=None, tag="r"):
     """Like execu.run_cmd, but stdout/stderr go to size-limited files (a mutant that prints forever cannot eat the memory of
@@ -272,7 +286,8 @@ def build_std_programs(ctx, nbatches, per_template, cases_per_program=50):
     cat = stdgen.Catalog(REPO)
     gen = stdgen.Generator(cat)
     tmpls = gen.templates()
-    d = scratch("c02std-probe")
+    d = scratch(sname(ctx, "c02std-probe"))
+    ctx.c02_dirs.append(d)
     good = gen.validate(tmpls, front_end_check(d), ctx.rng("std-validate"))
     good = backend_validate(ctx, gen, good, d)
     progs = gen.programs(good, ctx.rng("std-cases"), per_template, cases_per_program, max_cases=nbatches * cases_per_program)
@@ -306,7 +321,8 @@ def run_std(ctx, J, mc):
     per = int(ctx.opts.get("std_per_template", ctx.pick(3, 150)))
     cat, gen, good, progs = build_std_programs(ctx, nb, per, cases_per_program=ctx.pick(50, 80))
     ctx.count("std_programs", len(progs))
-    built, d = progrun.compile_all("c02std", [(p.name, p.source()) for p in progs])
+    built, d = progrun.compile_all(sname(ctx, "c02std"), [(p.name, p.source()) for p in progs])
+    ctx.c02_dirs.append(d)
     cwd = os.path.join(d, "cwd")
     os.makedirs(cwd, exist_ok=True)
     timeout = int(ctx.opts.get("std_timeout", 20))
@@ -375,7 +391,7 @@ def run_corpus(ctx, J):
         ctx.rng("corpus-slice").shuffle(sel)
         sel = sorted(sel[:n], key=lambda p: p.rel)
     ctx.count("corpus_programs_selected", len(sel))
-    built, d = corpus.compile_programs("c02corpus", [(p.rel, p, None) for p in sel])
+    built, d = corpus.compile_programs(sname(ctx, "c02corpus"), [(p.rel, p, None) for p in sel])
     todo = []
     expect_miss = []
     for p in sel:
@@ -419,6 +435,7 @@ def run_corpus(ctx, J):
             ctx.sample({"workload": "corpus", "program": p.describe(), "outcome": res["boots"][0].key()}, limit=8)
     ctx.count("corpus_expectation_mismatch", len(expect_miss))
     ctx.extra["corpus_expectation_mismatch"] = expect_miss[:40]
+    cleanup(ctx, d)
     return sel, built, times, d
 
 
@@ -426,7 +443,7 @@ def run_corpus(ctx, J):
 # workload 2b: unit-test images (`dora compile --test`)
 
 def run_unit_tests(ctx, J):
-    d = scratch("c02ut")
+    d = scratch(sname(ctx, "c02ut"))
     src = os.path.join(REPO, "pkgs", "boots", "boots.dora")
     exes, errs = {}, {}
 
@@ -454,6 +471,7 @@ def run_unit_tests(ctx, J):
     m = re.search(rb"(\d+) tests executed; (\d+) passed", res["boots"][0].stdout)
     if m:
         ctx.count("unit_tests_in_image", int(m.group(1)))
+    cleanup(ctx, d)
 
 
 # ---------------------------------------------------------------------------------------------------------------
@@ -521,7 +539,7 @@ def run_mutants(ctx, J, sel, times):
     ctx.count("mutant_base_programs", len(base))
     if not base:
         return
-    d = scratch("c02mut-src")
+    d = scratch(sname(ctx, "c02mut-src"))
     items, meta = [], {}
     tries = 0
     i = 0
@@ -541,7 +559,7 @@ def run_mutants(ctx, J, sel, times):
         items.append((tag, p, path))
         meta[tag] = (p, what, text)
     ctx.count("mutants_generated", len(items))
-    built, bd = corpus.compile_programs("c02mut", items)
+    built, bd = corpus.compile_programs(sname(ctx, "c02mut"), items)
     todo = []
     for tag, p, path in items:
         b = built[tag]
@@ -588,6 +606,7 @@ def run_mutants(ctx, J, sel, times):
             ctx.count("mutants_changing_the_outcome")
         if v == "agree" and ctx.counters.get("mutants_run", 0) % 97 == 1:
             ctx.sample({"workload": "mutant", "of": p.rel, "mutation": what, "outcome": res["boots"][0].key()}, limit=10)
+    cleanup(ctx, d, bd)
 
 
 # ---------------------------------------------------------------------------------------------------------------
@@ -598,7 +617,8 @@ def run_gen(ctx, J, mc):
     from ..gen import build as gbuild
     n = int(ctx.opts.get("gen_batches", ctx.pick(6, 60)))
     progs = c01.gen_programs(ctx, n, 40, stream="c02", feature_sets=[gbuild.ALL_FEATURES])
-    built, d = progrun.compile_all("c02gen", [(nm, p.source()) for nm, p in progs])
+    built, d = progrun.compile_all(sname(ctx, "c02gen"), [(nm, p.source()) for nm, p in progs])
+    ctx.c02_dirs.append(d)
     cwd = os.path.join(d, "cwd")
     os.makedirs(cwd, exist_ok=True)
     jobs = []
@@ -659,7 +679,7 @@ def run_memcheck(ctx, J, candidates):
         return
     r = ctx.rng("memcheck")
     r.shuffle(candidates)
-    d = scratch("c02mc")
+    d = scratch(sname(ctx, "c02mc"))
     jobs = []
     for i, cand in enumerate(candidates[:n]):
         jobs.append((i, cand, "--gc-stress" if i % 3 == 2 else None))
@@ -720,6 +740,7 @@ def run(ctx):
     ]
     J = Judge(ctx)
     mc = []
+    ctx.c02_dirs = []
     phases = ctx.extra.setdefault("phase_seconds", {})
     tlast = [time.time()]
 
@@ -746,6 +767,7 @@ def run(ctx):
     if on("memcheck") and mc:
         run_memcheck(ctx, J, mc)
         lap("memcheck")
+    cleanup(ctx, *ctx.c02_dirs)
     J.finish()
     if only is None:
         ctx.required_counters = ["std_cases", "corpus_programs_run", "mutants_run", "gen_cases"]
